@@ -59,8 +59,9 @@ func (o *oracles) checkAtomic(op Op, r OpResult) {
 			b, okb := before[n]
 			a, oka := after[n]
 			if okb != oka || !sameProj(b, a, false) {
-				o.violate("atomic", shape+"/rejected-but-changed", fmt.Sprintf("%s returned error %q but tag %s changed: %+v -> %+v (op %s)", op.K, r.Err, n, b, a, op))
-				return
+				if o.violate("atomic", shape+"/rejected-but-changed", fmt.Sprintf("%s returned error %q but tag %s changed: %+v -> %+v (op %s)", op.K, r.Err, n, b, a, op)) {
+					return
+				}
 			}
 		}
 		o.s.res.Count("c11_rejected_unchanged", 1)
@@ -76,8 +77,9 @@ func (o *oracles) checkAtomic(op Op, r OpResult) {
 		exp[op.Name] = tagProj{Def: op.Def, Color: op.Color}
 	case "DelTag":
 		if len(before[op.Name].RefBy) != 0 {
-			o.violate("graph", "deleted-referenced", fmt.Sprintf("DelTag(%s) succeeded although %v reference it", op.Name, before[op.Name].RefBy))
-			return
+			if o.violate("graph", "deleted-referenced", fmt.Sprintf("DelTag(%s) succeeded although %v reference it", op.Name, before[op.Name].RefBy)) {
+				return
+			}
 		}
 		delete(exp, op.Name)
 	case "UpdColor":
@@ -93,8 +95,9 @@ func (o *oracles) checkAtomic(op Op, r OpResult) {
 	case "UpdName":
 		if op.NewName != "" {
 			if len(before[op.Name].RefBy) != 0 {
-				o.violate("graph", "renamed-referenced", fmt.Sprintf("rename %s -> %s succeeded although %v reference it", op.Name, op.NewName, before[op.Name].RefBy))
-				return
+				if o.violate("graph", "renamed-referenced", fmt.Sprintf("rename %s -> %s succeeded although %v reference it", op.Name, op.NewName, before[op.Name].RefBy)) {
+					return
+				}
 			}
 			p := exp[op.Name]
 			delete(exp, op.Name)
@@ -116,8 +119,9 @@ func (o *oracles) checkAtomic(op Op, r OpResult) {
 			M := setOf(t.Matches)
 			for _, id := range op.IDs {
 				if (op.K == "MarkAdd") != M[uint(id)] {
-					o.violate("atomic", op.K+"/accepted-no-effect", fmt.Sprintf("%s(%s,%v) returned success but stream %d member=%v (matches %v)", op.K, op.Name, op.IDs, id, M[uint(id)], t.Matches))
-					return
+					if o.violate("atomic", op.K+"/accepted-no-effect", fmt.Sprintf("%s(%s,%v) returned success but stream %d member=%v (matches %v)", op.K, op.Name, op.IDs, id, M[uint(id)], t.Matches)) {
+						return
+					}
 				}
 			}
 		}
@@ -126,8 +130,9 @@ func (o *oracles) checkAtomic(op Op, r OpResult) {
 		e, oke := exp[n]
 		a, oka := after[n]
 		if oke != oka || !sameProj(e, a, true) {
-			o.violate("atomic", shape+"/accepted-wrong-effect", fmt.Sprintf("%s returned success; tag %s expected %+v (present=%v) got %+v (present=%v) (op %s)", op.K, n, e, oke, a, oka, op))
-			return
+			if o.violate("atomic", shape+"/accepted-wrong-effect", fmt.Sprintf("%s returned success; tag %s expected %+v (present=%v) got %+v (present=%v) (op %s)", op.K, n, e, oke, a, oka, op)) {
+				return
+			}
 		}
 	}
 	o.s.res.Count("c11_accepted_applied", 1)
@@ -170,8 +175,9 @@ func (o *oracles) checkGraph() {
 	for _, t := range st.Tags {
 		for _, r := range t.References {
 			if _, ok := refs[r]; !ok {
-				o.violate("graph", "dangling-reference", fmt.Sprintf("tag %s (%q) references missing tag %s", t.Name, t.Definition, r))
-				return
+				if o.violate("graph", "dangling-reference", fmt.Sprintf("tag %s (%q) references missing tag %s", t.Name, t.Definition, r)) {
+					return
+				}
 			}
 			if refBy[r] == nil {
 				refBy[r] = map[string]bool{}
@@ -200,8 +206,9 @@ func (o *oracles) checkGraph() {
 	}
 	for _, t := range st.Tags {
 		if c := visit(t.Name, nil); c != nil {
-			o.violate("graph", "cycle", fmt.Sprintf("tag references form a cycle: %s", strings.Join(c, " -> ")))
-			return
+			if o.violate("graph", "cycle", fmt.Sprintf("tag references form a cycle: %s", strings.Join(c, " -> "))) {
+				return
+			}
 		}
 	}
 	for _, t := range st.Tags {
@@ -211,15 +218,17 @@ func (o *oracles) checkGraph() {
 		}
 		sort.Strings(want)
 		if fmt.Sprint(want) != fmt.Sprint(append([]string{}, t.ReferencedBy...)) && !(len(want) == 0 && len(t.ReferencedBy) == 0) {
-			o.violate("graph", "referenced-mismatch", fmt.Sprintf("tag %s: referenced-by is %v, the definitions say %v", t.Name, t.ReferencedBy, want))
-			return
+			if o.violate("graph", "referenced-mismatch", fmt.Sprintf("tag %s: referenced-by is %v, the definitions say %v", t.Name, t.ReferencedBy, want)) {
+				return
+			}
 		}
 	}
 	for _, ti := range o.tags {
 		want := len(refBy[ti.Name]) != 0
 		if ti.Referenced != want {
-			o.violate("graph", "referenced-flag", fmt.Sprintf("ListTags: tag %s Referenced=%v, the definitions say %v", ti.Name, ti.Referenced, want))
-			return
+			if o.violate("graph", "referenced-flag", fmt.Sprintf("ListTags: tag %s Referenced=%v, the definitions say %v", ti.Name, ti.Referenced, want)) {
+				return
+			}
 		}
 	}
 	o.s.res.Count("c11_graph_checks", 1)
